@@ -168,6 +168,27 @@ def removeDefaults : Dict → List String → Dict × Bool
     | some d' => removeDefaults d' ks
     | none => (d, false)
 
+/-! ### degenerate values and containers
+
+  `None`, `False`, `0`, `''`, a tensor or a Points object with zero rows are values / containers like any
+  other: the code never asks for the truth value of an argument container and never filters a value by what
+  it is.  The two variants below do, and are kept to state why that is wrong. -/
+
+/-- `set_default` that skips one particular value (`… and value is not None`) -/
+def setDefaultsSkip (skip : Val) (params : List String) (d σ : Dict) : Dict :=
+  dupdate d (dictOf (σ.filter fun kv => params.contains kv.1 && kv.2 != skip))
+
+/-- a container of named columns with a number of rows (a Points object): Python's truth value of it is
+    `rows ≠ 0` (it defines `__len__` = number of rows, no `__bool__`) -/
+structure Table where
+  entries : Dict
+  rows : Nat
+  deriving Repr
+
+/-- `args = args or {}` before the call -/
+def callTruthy (params : List String) (d : Dict) (t : Table) : Except Err Dict :=
+  call params d (if t.rows = 0 then [] else t.entries)
+
 /-! ### which signature is inspected, which callable is invoked
 
   The wrapper inspects the object it is handed (`inspect.getfullargspec(self.fun)`, which does NOT follow
